@@ -27,6 +27,24 @@ pub fn run<F>(sched: &Sched, stack_mb: usize, f: F) -> ShuttleReport
 where
     F: Fn() + Send + Sync + 'static,
 {
+    let f = Arc::new(f);
+    let f1 = f.clone();
+    let rep = run_once(sched, stack_mb, move || f1());
+    // shuttle's PCT scheduler asserts that the closure exercised some concurrency; a case that ends before
+    // any thread is spawned (e.g. a fault at the very first item) is not a failure of the code under test:
+    // it is re-run under the seeded random scheduler
+    if sched.kind == "pct" && rep.failure.as_deref().map(|m| m.contains("did not exercise any concurrency")).unwrap_or(false) {
+        let mut s2 = sched.clone();
+        s2.kind = "random".into();
+        return run_once(&s2, stack_mb, move || f());
+    }
+    rep
+}
+
+fn run_once<F>(sched: &Sched, stack_mb: usize, f: F) -> ShuttleReport
+where
+    F: Fn() + Send + Sync + 'static,
+{
     let sched = sched.clone();
     let out: Arc<Mutex<Option<ShuttleReport>>> = Arc::new(Mutex::new(None));
     let out2 = out.clone();
